@@ -125,7 +125,7 @@ func runC14(c *Ctx) {
 	}
 
 	// ---- saturating-only ------------------------------------------------------------------
-	c.R.Rule("saturating-only", "package complexity: integer +,-,*,<< on int values only inside the saturating adder; the adder returns its raw sum only on the no-wrap edge with both operands tested non-negative; the selection type switch covers every ast.Selection implementation; a custom complexity is used only on the `ok && custom >= child` edge", 4)
+	c.R.Rule("saturating-only", "package complexity: integer +,-,*,<< on int values only inside the saturating adder; the adder returns its raw sum only on the no-wrap edge with both operands tested non-negative; the selection type switch covers every ast.Selection implementation; a custom complexity is used only on the `ok && custom >= child` edge; every selection kind reaches the adder on every path of its case (only introspection __Schema fields may be skipped)", 7)
 	adder := c.fn(pkgComplex, "safeAdd")
 	for _, fn := range c.moduleFuncs(func(p string) bool { return p == pkgComplex }) {
 		for _, b := range fn.Blocks {
@@ -166,6 +166,9 @@ func runC14(c *Ctx) {
 	}
 	if fc := c.fn(pkgComplex, "complexityWalker.fieldComplexity"); fc != nil {
 		c.customGuard(fc)
+	}
+	if sel := c.W.Func(pkgComplex, "complexityWalker.selectionSetComplexity"); sel != nil {
+		c.everySelectionCounted(sel)
 	}
 
 	// ---- switch-complete (generated) -----------------------------------------------------
@@ -435,4 +438,95 @@ func isCaseHead(b *ssa.BasicBlock, cases map[string]*ssa.BasicBlock) bool {
 		}
 	}
 	return false
+}
+
+// everySelectionCounted: in the walker's loop, each type-switch case (Field, FragmentSpread, InlineFragment) reaches a call of the
+// saturating adder on every path back to the loop header; the only accepted skip is the Field case's test of the field's type name.
+func (c *Ctx) everySelectionCounted(fn *ssa.Function) {
+	adder := c.W.Func(pkgComplex, "safeAdd")
+	if adder == nil {
+		return
+	}
+	var header *ssa.BasicBlock
+	for _, b := range fn.Blocks {
+		if isLoopHeader(b) {
+			header = b
+		}
+	}
+	if header == nil {
+		c.R.Bad("selectionSetComplexity/every-selection-counted", c.pos(fn.Pos()), "no loop over the selection set")
+		return
+	}
+	for _, b := range fn.Blocks {
+		for _, in := range b.Instrs {
+			ta, ok := in.(*ssa.TypeAssert)
+			if !ok || !ta.CommaOk {
+				continue
+			}
+			t := ta.AssertedType
+			if p, ok := t.(*types.Pointer); ok {
+				t = p.Elem()
+			}
+			named, ok := t.(*types.Named)
+			if !ok || named.Obj().Pkg() == nil || named.Obj().Pkg().Path() != pkgAST {
+				continue
+			}
+			kind := named.Obj().Name()
+			// the case block: successor on ok == true
+			var caseBlk *ssa.BasicBlock
+			for _, r := range an.Referrers(ta) {
+				if ex, ok := r.(*ssa.Extract); ok && ex.Index == 1 {
+					for _, u := range an.Referrers(ex) {
+						if iff, ok := u.(*ssa.If); ok {
+							caseBlk = iff.Block().Succs[0]
+						}
+					}
+				}
+			}
+			if caseBlk == nil {
+				continue
+			}
+			// DFS: paths from caseBlk to header that avoid a safeAdd call
+			bad := ""
+			seen := map[*ssa.BasicBlock]bool{}
+			var walk func(b *ssa.BasicBlock, trail []string)
+			walk = func(b *ssa.BasicBlock, trail []string) {
+				if bad != "" || seen[b] {
+					return
+				}
+				seen[b] = true
+				for _, x := range b.Instrs {
+					if call, ok := x.(*ssa.Call); ok && call.Call.StaticCallee() == adder {
+						return
+					}
+				}
+				for _, s := range b.Succs {
+					tr := trail
+					if len(b.Succs) == 2 {
+						if iff, ok := b.Instrs[len(b.Instrs)-1].(*ssa.If); ok {
+							tr = append(append([]string{}, trail...), c.condText(iff, b.Succs[0] == s))
+							// accepted skip: the Field case's comparison of a definition's Name with a string constant (introspection types)
+							f := an.FactOf(an.Guard{Cond: iff.Cond, Branch: b.Succs[0] == s})
+							if kind == "Field" && f.Op == token.EQL {
+								if _, isStr := an.ConstString(f.Y); isStr {
+									if fa, ok := loadAddr(f.X).(*ssa.FieldAddr); ok && fieldNameOf(fa) == "Name" {
+										continue
+									}
+								}
+							}
+						}
+					}
+					if s == header {
+						bad = "a " + kind + " selection can be skipped without adding its cost (path: " + strings.Join(tr, " → ") + "): the computed complexity is below the definition and an over-limit operation passes the gate"
+						return
+					}
+					if header.Dominates(s) {
+						walk(s, tr)
+					}
+				}
+			}
+			walk(caseBlk, nil)
+			c.R.Check(bad == "", "selectionSetComplexity/counts:"+kind, c.ipos(ta), "every path of the case reaches safeAdd", bad)
+		}
+	}
 }
